@@ -49,6 +49,10 @@ def run(ctx: Ctx):
               ' server is shutting down is answered with the retriable TimeoutError on both ways out of the server\'s'
               ' evaluation — raised and returned (R-C14-4). Rewriting it on the returned way only lets the raised one reach'
               ' as_completed as an application error, which aborts the run instead of re-queueing the shard', c14.r4, min_instances=3)
+  from mlmverif.props import c16 as _c16
+  ctx.include('R-C06-27', '"every output batch is delivered at least once": WorkerPool.iterate drains its internal output queue once more'
+              ' AFTER the scheduling loop (in the finally) — the last answers of the last running shard can land between the'
+              ' in-loop drain and the test that sees the shard done (R-C16-6)', _c16.r6, min_instances=1)
   ctx.include('R-C06-10', '"non-retriable task errors surface to the caller as'
               ' errors, never as silently missing results": on the worker the'
               ' failure of the shard\'s generator is stored BEFORE the end of'
@@ -1252,6 +1256,8 @@ _W = 'chainables/courier_worker.py'
 _O = 'chainables/orchestrate.py'
 _U = 'utils/courier_utils.py'
 VARIANTS = [
+    B('final-drain-of-the-output-queue-removed', 'chainables/courier_worker.py',
+      "      while not output_queue.empty():\n        batch_cnt += 1\n        yield output_queue.get()\n      loop_thread.join()", "      loop_thread.join()", 'R-C06-27'),
     B('submit-keeps-the-worker-of-a-requeued-task', 'utils/courier_utils.py',
       "    return task.set(state=state, worker=self)", "    return task.set(state=state, worker=task.worker or self)", 'R-C06-25'),
     B('next-batch-answer-polled', 'utils/courier_utils.py',
